@@ -2,7 +2,7 @@
    Only statements here; every proof is [exact <lemma of Proofs/C15*.v>].
    extract_message_size / encode_length / read_ / write_extended_field_value are the definitions
    translated from tcp.py / options.py on every run (coq/Gen); the rest is Model/C15.v. *)
-From Verif Require Import Lib.Py Lib.Tactics Gen.options_ext Gen.tcp_framing Model.C15 Proofs.C15 Proofs.C15Gate.
+From Verif Require Import Lib.Py Lib.Tactics Gen.options_ext Gen.tcp_framing Model.C15 Proofs.C15 Proofs.C15Gate Proofs.C15Total Proofs.C15Interleave.
 Open Scope Z_scope.
 
 (* ---- RFC 8323 section 3.2 length coding *)
@@ -24,9 +24,10 @@ Theorem C15_length_roundtrip : forall n tkl rest, 0 <= n < 65805 + 2 ^ 32 -> 0 <
 Proof. exact extract_length_roundtrip. Qed.
 Print Assumptions C15_length_roundtrip.
 
-(* _serialize output is: (Len | TKL) byte, extended length, code, token, options, [0xFF payload] *)
+(* _serialize output is: (Len | TKL) byte, extended length, code, token, options, [0xFF payload] — for options
+   added to the message in ANY order ([opts m] is the insertion sequence; option_list sorts it stably by number) *)
 Theorem C15_serialize_is_rfc8323 : forall m b, serialize m = Ok b ->
-  exists od, options_encode (opts m) = Ok od /\
+  exists od, options_encode (option_list (opts m)) = Ok od /\
     let data := od ++ (match payload m with [] => [] | _ => 255 :: payload m end) in
     0 <= blen data < 65805 + 2 ^ 32 /\ blen (token m) <= 8 /\
     b = (Z.lor (Z.shiftl (fst (rfc8323_len (blen data))) 4) (blen (token m)) :: snd (rfc8323_len (blen data)))
@@ -40,6 +41,17 @@ Theorem C15_decode_serialize : forall m b, msg_ok m = true -> serialize m = Ok b
   exists a l, header b = Some (a, blen (token m), l) /\ a + blen (token m) + l = blen b /\ 2 <= a.
 Proof. exact decode_serialize. Qed.
 Print Assumptions C15_decode_serialize.
+
+(* the same for any insertion order of the options: the receiver sees them in option_list() order *)
+Theorem C15_decode_serialize_any_order : forall m b, msg_ok (canon m) = true -> serialize m = Ok b ->
+  decode_message b = Ok (canon m) /\ bytes_ok b = true /\
+  exists a l, header b = Some (a, blen (token m), l) /\ a + blen (token m) + l = blen b /\ 2 <= a.
+Proof. exact decode_serialize_any. Qed.
+Print Assumptions C15_decode_serialize_any_order.
+(* option_list() leaves options that were added in non-decreasing number order alone *)
+Theorem C15_option_list_sorted_id : forall cur os, opts_ok cur os = true -> option_list os = os.
+Proof. exact option_list_sorted_id. Qed.
+Print Assumptions C15_option_list_sorted_id.
 
 (* ---- segmentation independence *)
 (* however a byte stream is cut into (a non-empty list of) chunks, the connection behaves, up to and
@@ -65,6 +77,15 @@ Theorem C15_nothing_after_close : forall c d, closed c = false -> bytes_ok (spoo
 Proof. exact data_received_close_last. Qed.
 Print Assumptions C15_nothing_after_close.
 
+(* ... also in histories that interleave data with outgoing messages and connection loss: cutting any data
+   chunk in two (equivalently, merging two adjacent chunks) at any place of any history changes no output.
+   Any two segmentations of the data between the same other events are connected by such steps. *)
+Theorem C15_framing_chunk_independent_interleaved : forall pre post c a b, bytes_ok (spool c) = true ->
+  Forall data_ok pre -> bytes_ok a = true -> bytes_ok b = true ->
+  snd (run c (pre ++ EData (a ++ b) :: post)) = snd (run c (pre ++ EData a :: EData b :: post)).
+Proof. exact split_chunk_anywhere. Qed.
+Print Assumptions C15_framing_chunk_independent_interleaved.
+
 (* the loop's fuel (spool length + 1) always suffices: more fuel changes nothing *)
 Theorem C15_loop_fuel_irrelevant : forall n n' c, bytes_ok (spool c) = true ->
   (length (spool c) < n)%nat -> (length (spool c) < n')%nat -> data_received_loop n c = data_received_loop n' c.
@@ -80,6 +101,32 @@ Theorem C15_stream_processed_as_messages : forall ms c bs,
   o1 = o2 /\ set_spool c1 [] = set_spool c2 [].
 Proof. exact stream_processed_as_messages. Qed.
 Print Assumptions C15_stream_processed_as_messages.
+
+(* ---- totality: nothing but UnparsableMessage leaves the parser, nothing leaves data_received *)
+(* Options.decode on EVERY byte string: a result or UnparsableMessage; option numbers are bounded by the input length *)
+Theorem C15_options_decode_total : forall fuel num raw, bytes_ok raw = true -> 0 <= num -> (length raw < fuel)%nat ->
+  (exists os p, options_decode_loop fuel num raw = Ok (os, p) /\
+     Forall (fun o => 0 <= fst o <= num + 65804 * blen raw) os) \/
+  options_decode_loop fuel num raw = Raise UnparsableMessage.
+Proof. exact options_decode_loop_total. Qed.
+Print Assumptions C15_options_decode_total.
+
+(* _decode_message on EVERY complete frame (what data_received passes to it): a message with a token of at most
+   8 bytes, or UnparsableMessage — no IndexError, TypeError, UnicodeDecodeError, ... *)
+Theorem C15_decode_message_total : forall f a t l, bytes_ok f = true -> header f = Some (a, t, l) -> a + t + l = blen f ->
+  (exists m, decode_message f = Ok m /\ blen (token m) <= 8 /\
+     Forall (fun o => 0 <= fst o <= 65804 * blen f) (opts m)) \/
+  decode_message f = Raise UnparsableMessage.
+Proof. exact decode_message_total. Qed.
+Print Assumptions C15_decode_message_total.
+
+(* for every connection state and every chunk of bytes: data_received yields outputs and a new state and no
+   exception leaves it (local maximum message size at most 2^40; aiocoap's is 2^20): whatever the parser rejects
+   has become Abort + close, and the Abort / Pong messages the endpoint builds itself always serialise *)
+Theorem C15_no_exception_escapes : forall c d, bytes_ok (spool c) = true -> bytes_ok d = true ->
+  my_max_message_size c <= 2 ^ 40 -> existsb is_escaped (snd (data_received c d)) = false.
+Proof. exact data_received_no_esc. Qed.
+Print Assumptions C15_no_exception_escapes.
 
 (* ---- per message: dispatch, CSM gate, empty, Ping/Pong, Release/Abort *)
 Theorem C15_dispatch_exact : forall c m s, remote_settings c = Some s -> is_signalling (code m) = false -> code m <> 0 ->
@@ -162,10 +209,15 @@ Print Assumptions C15_abort_on_unknown_signalling_code.
 (* ---- non-vacuity *)
 Definition ex_get : msg := {| code := 1; token := [170; 187]; opts := [(11, [116; 101; 109; 112]); (12, []); (60, [1; 0])]; payload := [] |}.
 Definition ex_content : msg := {| code := 69; token := [170; 187]; opts := [(12, [50])]; payload := [123; 125] |}.
+Definition ex_unsorted : msg := {| code := 2; token := [1]; opts := [(60, [1; 0]); (11, [98]); (12, []); (11, [97])]; payload := [33] |}.
 Definition ex_conn : conn := {| spool := []; remote_settings := Some {| max_message_size := Some 1152; block_wise_transfer := true |};
                                 my_max_message_size := 1048576; closed := false |}.
 Example C15_msg_ok_nonvacuous : msg_ok ex_get = true /\ msg_ok ex_content = true /\
   fits 1048576 ex_get = true /\ frames [ex_get; ex_content] = Ok ([162; 1; 170; 187; 180; 116; 101; 109; 112; 16; 210; 35; 1; 0] ++ [82; 69; 170; 187; 193; 50; 255; 123; 125]).
+Proof. vm_compute. repeat split; reflexivity. Qed.
+Example C15_unsorted_example : msg_ok (canon ex_unsorted) = true /\ msg_ok ex_unsorted = false /\
+  opts (canon ex_unsorted) = [(11, [98]); (11, [97]); (12, []); (60, [1; 0])] /\
+  match serialize ex_unsorted with Ok b => decode_message b = Ok (canon ex_unsorted) | Raise _ => False end.
 Proof. vm_compute. repeat split; reflexivity. Qed.
 (* CSM, GET, Ping with token, Release, one byte at a time: same as in one piece *)
 Example C15_bytewise_example :
